@@ -85,7 +85,7 @@ def run(pid, tier, seed, replay):
         except Exception as e:  # the replay is the seed + tier: generation is deterministic
             print("cannot read replay file %s: %s" % (replay, e))
     ck = Check(pid, tier, seed, level="proof")
-    n, nconc = (400, 24) if tier == "quick" else (8000, 300)
+    n, nconc = (300, 20) if tier == "quick" else (8000, 300)
     # ---- proofs
     ck.proof_step(extra_targets=["Model/MemPool.vo"])
     # ---- build + run the implementation
